@@ -68,8 +68,11 @@ Definition has_child (fs : fsT) (d : path) : bool :=
 
 (* bytes *)
 Definition slice (d : list byte) (off n : nat) : list byte := firstn n (skipn off d).
-Definition write_at (f : list byte) (off : nat) (d : list byte) : list byte :=
+Definition write_at_raw (f : list byte) (off : nat) (d : list byte) : list byte :=
   firstn off (f ++ repeat 0%N (off - length f)) ++ d ++ skipn (off + length d) f.
+(* seek + write: a hole before the data reads back as zeros; an empty write changes nothing *)
+Definition write_at (f : list byte) (off : nat) (d : list byte) : list byte :=
+  match d with [] => f | _ => write_at_raw f off d end.
 
 (* external tensors (handles) *)
 Record tstate := { t_path : path; t_off : nat; t_len : nat; t_valid : bool;
